@@ -517,7 +517,11 @@ def _run_case_in(case, d):
             res["fired_main"] = on_main
             # In fork mode the process we started is the parent; the link runs in its child.
             res["fired_in_parent"] = bool(case["fork"] and pid == p.pid)
-            res["before_unmap"] = UNMAP_EXIT not in seen
+            # The fault's log line is written before the fault acts. A fault on a worker thread
+            # (and SIGSEGV sent from outside) does not stop the main thread at once, so "the
+            # process died before the output was unmapped" is claimed only when the unmap exit
+            # point appears nowhere in the log.
+            res["before_unmap"] = UNMAP_EXIT not in {e[0] for e in plog}
             res["after_write"] = WRITE_EXIT in seen
             res["stage"] = toplevel_stages(plog[:idx + 1])[idx]
     return res
@@ -613,6 +617,10 @@ def cfg_key(c):
 def cfg_name(c):
     return "%s/%s/t%d/%s/%s" % (c["prog"], "fork" if c["fork"] else "nofork", c["threads"],
                                 c["wmode"], c["prior"])
+
+
+def key_name(k):
+    return cfg_name(dict(prog=k[0], fork=k[1], threads=k[2], wmode=k[3], prior=k[4]))
 
 
 def run_plan(cases, wall_cap, t0, seed=0, batch=1500):
